@@ -13,7 +13,7 @@ DECIDED = [
     "NOTIFY: every enqueue is followed by a notification of the scheduler's condition variable; the wake predicate reads everything a notifier changes; because the exit flag is stored without the mutex, every wait on the predicate is bounded in time (no untimed wait, no `forever` time-out constant); a record is completely written before it is linked into a hand-over queue",
     "SHUTDOWN-ORDER: exit flag -> notify -> join -> inner clean-up -> primitive clean-ups -> release",
     "DRAIN: both hand-over queues are provably empty (or drained into a consumer) between the join and the release; no local batch list is dropped while it may hold items",
-    "CANCEL-NODE: each cancellation record is enqueued on every path after allocation and released after being consumed",
+    "CANCEL-NODE: each cancellation record is enqueued on every path after allocation and released after being consumed; a record's task reaches the inner cancel (which invokes unconditionally) only through a test that it is still linked / scheduled there or was removed from the hand-over queue by the request (found D14, fixed); record helpers are followed (they run where their callers run)",
     "BALANCE: no function returns holding the mutex; the wait is entered with the mutex held",
     "CANCEL: the inner scheduler's cancel detaches from a list when linked, from the heap only when scheduled, then invokes once (shared with C07)",
     "NOBLOCK: nothing that can invoke a task function (inner cancel/run-all/clean-up) and no client entry point runs while the hand-over mutex is held",
@@ -51,6 +51,7 @@ def analyse(ctx, replace=None, only=None):
     R.require("aws_thread_scheduler" in P.records and any(f["n"] == "thread_data" for f in P.records["aws_thread_scheduler"]["fields"]),
               "struct aws_thread_scheduler.thread_data not found")
 
+    helpers = record_helpers(fns)
     # ------------------------------------------------------------------ LOCK
     n_acc = 0
     # predicate functions: every use of the function as a value must be the predicate argument of a wait on the same mutex
@@ -136,6 +137,20 @@ def analyse(ctx, replace=None, only=None):
                 sts = st.before.get(e.pos, set())
                 R.check(sts and sts <= {"none", "failed"}, "CONFINE", inst, where(f, e), "constructor: no thread running (%s)" % sorted(sts),
                         "constructor touches the inner scheduler while the launched thread may be running (%s)" % sorted(sts))
+            elif name in helpers:
+                # a record helper runs where it is called: every call site is on the scheduler thread or after the join
+                okh, sites_ = True, 0
+                for cn, cf in fns.items():
+                    cd = dominators(cf)
+                    for ce in cf.calls(name):
+                        sites_ += 1
+                        if cn == "s_thread_fn" or cn in pred_fns:
+                            continue
+                        if cn == "s_destroy_callback" and any(ev_dominates(cf, j, ce, cd) for j in cf.calls("aws_thread_join")):
+                            continue
+                        okh = False
+                R.check(okh and sites_ > 0, "CONFINE", inst, where(f, e), "helper called only from the scheduler thread / after the join (%d call sites)" % sites_,
+                        "helper %s touches the inner scheduler and is called from a client-side function" % name)
             else:
                 R.fail("CONFINE", inst, where(f, e), "client-thread function touches the inner (single-threaded) task scheduler")
     R.require(n_inner >= 9, "only %d inner-scheduler uses found (confirmed: >= 9)" % n_inner)
@@ -301,8 +316,11 @@ def analyse(ctx, replace=None, only=None):
     # consumers: every function that pops from a list fed by cancel_queue releases the record and cancels its task
     for name in ("s_thread_fn", "s_destroy_callback"):
         f = fns[name]
-        consume_cancel_records(R, f)
-    noblock(R, fns)
+        consume_cancel_records(R, f, helpers)
+    for hn, (hg, hi) in sorted(helpers.items()):
+        for e in hg.calls("aws_task_scheduler_cancel_task"):
+            pending_tested(R, hg, e, "%s:record-cancels-only-a-pending-task" % hn)
+    noblock(R, fns, helpers)
     # the inner (single-threaded) scheduler's cancel contract, which the cancellation records rely on
     from rules import C07
     tsf = {f.name: f for f in P.functions_in("source/task_scheduler.c")}
@@ -473,7 +491,56 @@ def batch_lists(R, f):
                 "item popped from %s is not handed to the inner scheduler" % (lst or {}).get("n"))
 
 
-def consume_cancel_records(R, f):
+def record_helpers(fns):
+    """static helpers that take a cancellation record and cancel its task on the inner scheduler: {name: (function, index of
+    the record parameter)}.  They run where their callers run; the rules below follow calls into them."""
+    out = {}
+    for name, g in fns.items():
+        for i, p in enumerate(g.params):
+            t = g.unit.types[p["t"]]
+            if t.get("ptr") and t.get("rec") == "cancellation_node":
+                ids_ = {p["n"]}
+                tainted, et = RU.derives(g, lambda n, ids_=ids_: n["k"] == "var" and n["n"] in ids_)
+                for e in g.calls({"aws_task_scheduler_cancel_task", "aws_task_run"}):
+                    if any(any(x["k"] == "var" and (x["n"] in ids_ or x["n"] in tainted) for x in g.walk(a, follow_refs=True)) for a in e.node["a"]):
+                        out[name] = (g, i)
+    return out
+
+
+def pending_tested(R, g, e, inst, dom=None):
+    """the inner cancel invokes the task unconditionally; by the time a record is processed its task may already have been
+    run (the client cancelled while the task was inside the single-threaded scheduler, waiting behind another task of the
+    same run-all).  A record may therefore cancel only a task that is still pending there, or one that the cancel request
+    itself took out of the hand-over queue (a flag of the record)."""
+    from sa.cfg import edges
+    tests, pend = set(), []
+    for b in g.blocks.values():
+        if b.cond is None:
+            continue
+        for x in g.walk(g.d(b.cond), follow_refs=True):
+            if x["k"] == "member" and x["f"] in ("scheduled", "next", "prev"):
+                tests.add(b.id)
+                pend.append(g.show(g.d(b.cond))[:60])
+            elif x["k"] == "member" and x.get("rec") == "cancellation_node" and x["f"] not in ("task_to_cancel", "node"):
+                tests.add(b.id)
+    # every path from the entry to the call passes a test of the task's pending state (or of the record's own flag)
+    seen, work, reach = set(), [g.entry], False
+    while work:
+        b = work.pop()
+        if b in seen or b in tests:
+            continue
+        seen.add(b)
+        if b == e.blk:
+            reach = True
+            break
+        for s, _c, _p in edges(g, b):
+            work.append(s)
+    R.check(bool(pend) and not reach, "CANCEL-NODE", inst, where(g, e), "the inner cancel is reached only through a test that the task is still linked / scheduled (or was removed from the hand-over queue by the request): %s" % sorted(set(pend))[:2],
+            "the cancellation record's task is handed to aws_task_scheduler_cancel_task without testing that it is still pending: a task cancelled while it waits inside the scheduler behind a running task is first run (RUN_READY) and then invoked again with CANCELED on the next pass")
+
+
+def consume_cancel_records(R, f, helpers=None):
+    helpers = helpers or {}
     """every cancellation record taken off the cancel queue (directly, or from a local batch swapped with it) has its task
     cancelled on the inner scheduler and is then released"""
     fed = set()
@@ -503,8 +570,12 @@ def consume_cancel_records(R, f):
             return False
 
         cancels = [e for e in f.calls({"aws_task_scheduler_cancel_task", "aws_task_run"}) if any(reads_task(a) for a in e.node["a"]) and ev_dominates(f, p, e, dom)]
+        cancels += [e for e in f.calls(set(helpers)) if helpers[e.node["callee"]][1] < len(e.node["a"]) and et(e.node["a"][helpers[e.node["callee"]][1]]) and ev_dominates(f, p, e, dom)]
         R.check(bool(cancels), "CANCEL-NODE", "%s:record-task-cancelled" % f.name, where(f, p), "the popped record's task is cancelled on the inner scheduler",
                 "a cancellation record is taken off the queue but its task is never cancelled: a task cancelled while still in the hand-over queue is never invoked")
+        for e in cancels:
+            if e.node.get("callee") == "aws_task_scheduler_cancel_task":
+                pending_tested(R, f, e, "%s:record-cancels-only-a-pending-task" % f.name, dom)
         rel = [e for e in f.calls("aws_mem_release") if et(RU.arg(f, e.node, 1)) and ev_dominates(f, p, e, dom)]
         R.check(bool(rel), "CANCEL-NODE", "%s:record-released-after-use" % f.name, where(f, p), "the popped record is released",
                 "cancellation record popped but never released (leak)")
@@ -525,7 +596,8 @@ def must_precede_all(f, A, b, dom):
 INVOKES_TASKS = {"aws_task_scheduler_cancel_task", "aws_task_scheduler_run_all", "aws_task_scheduler_clean_up", "aws_task_run"}
 
 
-def noblock(R, fns):
+def noblock(R, fns, helpers=None):
+    helpers = helpers or {}
     """task functions may schedule / cancel on this scheduler: nothing that can invoke one runs under the hand-over mutex,
     and no client entry point is called with it held (the mutex is not recursive)"""
     client = {"aws_thread_scheduler_schedule_future", "aws_thread_scheduler_schedule_now", "aws_thread_scheduler_cancel_task", "aws_thread_scheduler_release"}
@@ -536,7 +608,7 @@ def noblock(R, fns):
             if e.kind != "call":
                 continue
             c = e.node.get("callee")
-            if c in INVOKES_TASKS or c in client or c in ("aws_thread_join",) or (c is None and RU.indirect_via(f, e.node) == ("aws_task", "fn")):
+            if c in INVOKES_TASKS or c in helpers or c in client or c in ("aws_thread_join",) or (c is None and RU.indirect_via(f, e.node) == ("aws_task", "fn")):
                 n += 1
                 held = RU.held_at(ts, e) or set()
                 R.check(not any(h.endswith("thread_data.mutex") for h in held), "NOBLOCK", "%s:%s" % (name, c or "task->fn"), where(f, e),
@@ -546,8 +618,11 @@ def noblock(R, fns):
 
 
 MUTANTS = [
+    {"name": "record-cancels-a-task-that-already-ran", "file": FILE, "expect": "CANCEL-NODE",
+     "old": "    if (cancellation_node->removed_from_scheduling_queue || task->node.next != NULL || task->abi_extension.scheduled) {\n        aws_task_scheduler_cancel_task(&scheduler->scheduler, task);\n    }",
+     "new": "    aws_task_scheduler_cancel_task(&scheduler->scheduler, task);"},
     {"name": "drain-frees-records-without-cancelling", "file": FILE, "expect": "CANCEL-NODE",
-     "old": "        aws_task_scheduler_cancel_task(&scheduler->scheduler, cancellation_node->task_to_cancel);\n        aws_mem_release(scheduler->allocator, cancellation_node);\n    }",
+     "old": "        s_process_cancellation(scheduler, cancellation_node);\n        aws_mem_release(scheduler->allocator, cancellation_node);\n    }",
      "new": "        aws_mem_release(scheduler->allocator, cancellation_node);\n    }"},
     {"name": "cancels-processed-under-lock", "file": FILE, "expect": "NOBLOCK",
      "old": "        AWS_FATAL_ASSERT(!aws_mutex_unlock(&scheduler->thread_data.mutex) && \"mutex unlock failed!\");\n\n        while (!aws_linked_list_empty(&list_cpy)) {",
@@ -566,8 +641,8 @@ MUTANTS = [
      "old": "           !aws_linked_list_empty(&scheduler->thread_data.cancel_queue) || (next_scheduled_task <= current_time);",
      "new": "           (next_scheduled_task <= current_time);"},
     {"name": "clean-up-before-join", "file": FILE, "expect": "CONFINE",
-     "old": "    aws_thread_join(&scheduler->thread);\n    aws_task_scheduler_clean_up(&scheduler->scheduler);",
-     "new": "    aws_task_scheduler_clean_up(&scheduler->scheduler);\n    aws_thread_join(&scheduler->thread);"},
+     "old": "    aws_condition_variable_notify_all(&scheduler->thread_data.c_var);\n    aws_thread_join(&scheduler->thread);",
+     "new": "    aws_condition_variable_notify_all(&scheduler->thread_data.c_var);\n    aws_task_scheduler_clean_up(&scheduler->scheduler);\n    aws_thread_join(&scheduler->thread);"},
     {"name": "swap-outside-lock", "file": FILE, "expect": "LOCK",
      "old": "        aws_linked_list_swap_contents(&scheduler->thread_data.cancel_queue, &cancel_list_cpy);\n        AWS_FATAL_ASSERT(!aws_mutex_unlock(&scheduler->thread_data.mutex) && \"mutex unlock failed!\");",
      "new": "        AWS_FATAL_ASSERT(!aws_mutex_unlock(&scheduler->thread_data.mutex) && \"mutex unlock failed!\");\n        aws_linked_list_swap_contents(&scheduler->thread_data.cancel_queue, &cancel_list_cpy);"},
